@@ -73,6 +73,12 @@ MUTANTS = [
     ('struct-ctx-not-updated', 'C07', CORE, "                    obj[sc.name] = subobj\n                    context[sc.name] = subobj\n            except StopFieldError:\n                break\n        return obj\n\n    def _build(self, obj, stream, context, path):\n        if obj is None:\n            obj = Container()",
      "                    obj[sc.name] = subobj\n            except StopFieldError:\n                break\n        return obj\n\n    def _build(self, obj, stream, context, path):\n        if obj is None:\n            obj = Container()"),
     ('struct-flag-swapped', 'C07', CORE, "        obj = Container()\n        obj._io = stream\n        context = Container(_ = context, _params = context._params, _root = None, _parsing = context._parsing, _building = context._building, _sizing = context._sizing, _subcons = self._subcons, _io = stream, _index = context.get(\"_index\", None))", "        obj = Container()\n        obj._io = stream\n        context = Container(_ = context, _params = context._params, _root = None, _parsing = context._building, _building = context._parsing, _sizing = context._sizing, _subcons = self._subcons, _io = stream, _index = context.get(\"_index\", None))"),
+    ('expr-rsub-order', 'C11', EXPR, "    def __rsub__(self, other):\n        return BinExpr(operator.sub, other, self)", "    def __rsub__(self, other):\n        return BinExpr(operator.sub, self, other)"),
+    ('expr-shift-swapped', 'C11', EXPR, "    def __rshift__(self, other):\n        return BinExpr(operator.rshift, self, other)", "    def __rshift__(self, other):\n        return BinExpr(operator.lshift, self, other)"),
+    ('expr-repr-noparen', 'C11', EXPR, "        return \"(%s %s %s)\" % (_operandtext(self.lhs, repr), opnames[self.op], _operandtext(self.rhs, repr))", "        return \"%s %s %s\" % (_operandtext(self.lhs, repr), opnames[self.op], _operandtext(self.rhs, repr))"),
+    ('expr-call-order', 'C11', EXPR, "        return self.op(lhs, rhs)", "        return self.op(rhs, lhs)"),
+    ('expr-path-parent', 'C11', EXPR, "            return self.__parent(obj)[self.__field]", "            return obj[self.__field]"),
+    ('expr-opname', 'C11', EXPR, "    operator.floordiv : \"//\",", "    operator.floordiv : \"/\","),
     ('sbib-order', 'C10', BIN, "for i in reversed(range(0,len(data),8)))", "for i in range(0,len(data),8))"),
     ('b2b-mod', 'C10', BIN, "if len(data) % 8 != 0:\n        raise ValueError(f\"data length {len(data)} must be", "if len(data) % 4 != 0:\n        raise ValueError(f\"data length {len(data)} must be"),
 ]
